@@ -154,6 +154,13 @@ func (c *capSet) Add(caps ...string) {
 	c.mu.Unlock()
 }
 
+// Clear forgets every capability in the set.
+func (c *capSet) Clear() {
+	c.mu.Lock()
+	c.caps = make(map[string]bool)
+	c.mu.Unlock()
+}
+
 func (c *capSet) Has(cap string) bool {
 	c.mu.RLock()
 	defer c.mu.RUnlock()
